@@ -51,7 +51,10 @@ func (v *VerifCurator) C04Recovery() *VerifRecovery {
 	return &VerifRecovery{R: r, V: v, Health: map[core.TractserverID]int{}}
 }
 
-// applyHealth rewrites the monitor's view of when each known server last beat.
+// applyHealth rewrites the monitor's view of when each server that HAS heartbeaten to this incarnation last
+// beat.  A server the monitor only expects (it is in the durable known-tractserver set but has not sent this
+// incarnation a heartbeat: no address yet) is left alone: with the start-up grace period long over the real
+// refreshStatus counts it as down.
 func (vr *VerifRecovery) applyHealth() {
 	t := vr.V.C.tsMon
 	t.lock.Lock()
@@ -59,6 +62,9 @@ func (vr *VerifRecovery) applyHealth() {
 	now := t.getTime()
 	t.start = now.Add(-24 * time.Hour) // the grace period after start-up is long over
 	for id, data := range t.idToHost {
+		if data.Addr == "" {
+			continue // expected only
+		}
 		switch vr.Health[id] {
 		case 0:
 			data.LastBeat = now
@@ -70,6 +76,47 @@ func (vr *VerifRecovery) applyHealth() {
 		t.idToHost[id] = data
 	}
 	t.refreshStatus()
+}
+
+// seedExpected is the body of updateTsmonLoop: the monitor is told to expect every tractserver of the DURABLE
+// known-tractserver set (that is how a new leader learns which servers it must watch before they heartbeat).
+// Returns the ids that were not in the monitor before.
+func (vr *VerifRecovery) seedExpected() (added []core.TractserverID) {
+	c := vr.V.C
+	t := c.tsMon
+	ids := c.stateHandler.GetKnownTSIDs()
+	t.lock.Lock()
+	for _, id := range ids {
+		if _, ok := t.idToHost[id]; !ok {
+			added = append(added, id)
+		}
+	}
+	t.lock.Unlock()
+	t.updateExpected(ids)
+	return
+}
+
+// unseed takes the expected-only entries out again after the detect round.  The Cluster harness and model keep an
+// incarnation's address table as "servers that have heartbeaten" (an expected entry without address would make
+// replicateTract send RPCs to the empty address instead of failing with ErrHostNotExist, which the shared Cluster
+// model does not describe); the recovery loop's status snapshot, the only consumer that matters for C04, has
+// been taken by then.
+func (vr *VerifRecovery) unseed(added []core.TractserverID) {
+	t := vr.V.C.tsMon
+	t.lock.Lock()
+	for _, id := range added {
+		if d, ok := t.idToHost[id]; ok && d.Addr == "" {
+			delete(t.idToHost, id)
+		}
+	}
+	t.refreshStatus()
+	t.lock.Unlock()
+}
+
+// HasBeaten reports whether the server has sent this incarnation a heartbeat.
+func (v *VerifCurator) C04HasBeaten(id core.TractserverID) bool {
+	a, ok := v.C.tsMon.getAddrByID(id)
+	return ok && a != ""
 }
 
 // VerifTask describes a queued or running recovery task.
@@ -113,6 +160,8 @@ func c04Less(a, b core.TractID) bool {
 // DetectRound runs one iteration of detectLoop's body.
 func (vr *VerifRecovery) DetectRound() VerifDetect {
 	r := vr.R
+	added := vr.seedExpected() // updateTsmonLoop's body: expect what the durable state knows
+	defer vr.unseed(added)
 	vr.applyHealth()
 
 	r.currentGen = !r.currentGen
